@@ -21,7 +21,6 @@ import (
 	"bytes"
 	"context"
 	"fmt"
-	"os"
 	"reflect"
 	"runtime"
 	"strconv"
@@ -187,7 +186,6 @@ func hashChecked(run *ev.Run, req, twin *pairingtypes.RelayPrivateData, chain st
 type dim struct {
 	name      string
 	vals      []string // printable value names
-	quick     int      // number of values used in the quick tier
 	ignorable bool     // ignorable by the property text (the JSON-RPC id only for JSON-RPC style interfaces)
 }
 
@@ -213,23 +211,23 @@ const (
 )
 
 var dims = [nDims]dim{
-	dChain:  {"chain", []string{"ETH1", "LAV1"}, 2, false},
-	dIface:  {"api_interface", []string{"jsonrpc", "tendermintrpc", "rest"}, 3, false},
-	dConn:   {"connection_type", []string{"POST", "GET"}, 2, false},
-	dURL:    {"api_url", []string{"", "/v1/x"}, 2, false},
-	dMethod: {"method", []string{"eth_getBalance", "eth_getCode"}, 2, false},
-	dParams: {"params", []string{`["0xabc","latest"]`, `["0xabd","latest"]`}, 2, false},
-	dShape:  {"shape", []string{"single", "batch2"}, 2, false},
-	dID:     {"jsonrpc_id", []string{"1", `"x"`, "absent", "2"}, 3, true},
-	dBlock:  {"requested_block", []string{"100", "101", "4294967396", "0"}, 3, false},
-	dSalt:   {"salt", []string{"nil", "0102"}, 2, true},
-	dMeta:   {"metadata", []string{"none", "a=b", "a=c"}, 2, false},
-	dAddon:  {"addon", []string{"", "debug"}, 2, false},
-	dExt:    {"extensions", []string{"none", "archive"}, 2, false},
-	dSeen:   {"seen_block", []string{"0", "99"}, 2, true},
-	dReqID:  {"request_id", []string{"", "r-1"}, 2, true},
-	dTask:   {"task_id", []string{"nil", "t-1"}, 2, true},
-	dTx:     {"tx_id", []string{"nil", "x-1"}, 2, true},
+	dChain:  {"chain", []string{"ETH1", "LAV1"}, false},
+	dIface:  {"api_interface", []string{"jsonrpc", "tendermintrpc", "rest"}, false},
+	dConn:   {"connection_type", []string{"POST", "GET"}, false},
+	dURL:    {"api_url", []string{"", "/v1/x"}, false},
+	dMethod: {"method", []string{"eth_getBalance", "eth_getCode"}, false},
+	dParams: {"params", []string{`["0xabc","latest"]`, `["0xabd","latest"]`}, false},
+	dShape:  {"shape", []string{"single", "batch2"}, false},
+	dID:     {"jsonrpc_id", []string{"1", `"x"`, "absent", "2"}, true},
+	dBlock:  {"requested_block", []string{"100", "101", "4294967396", "0"}, false},
+	dSalt:   {"salt", []string{"nil", "0102"}, true},
+	dMeta:   {"metadata", []string{"none", "a=b", "a=c"}, false},
+	dAddon:  {"addon", []string{"", "debug"}, false},
+	dExt:    {"extensions", []string{"none", "archive"}, false},
+	dSeen:   {"seen_block", []string{"0", "99"}, true},
+	dReqID:  {"request_id", []string{"", "r-1"}, true},
+	dTask:   {"task_id", []string{"nil", "t-1"}, true},
+	dTx:     {"tx_id", []string{"nil", "x-1"}, true},
 }
 
 type grid struct {
@@ -382,7 +380,7 @@ func parallel(n, workers int, deadline time.Time, f func(w, i int)) (completed b
 	return !timedOut.Load()
 }
 
-func phase1(run *ev.Run, h *harness, tier string, workers int, deadline time.Time) bool {
+func phase1(run *ev.Run, h *harness, tier, pfx string, workers int, deadline time.Time) bool {
 	g := newGrid(tier)
 	hashes := make([][]byte, g.size)
 	scratch := make([][]byte, workers)
@@ -457,13 +455,13 @@ func phase1(run *ev.Run, h *harness, tier string, workers int, deadline time.Tim
 			atomic.AddInt64(&distinctClasses, 1)
 		}
 	})
-	run.Set("p1_grid_requests", int64(len(g.members)))
-	run.Set("p1_ordered_pairs_decided", int64(len(g.members))*int64(len(g.members)))
-	run.Set("p1_hits_verified", hits)
-	run.Set("p1_misses", misses)
-	run.Set("p1_hits_served_from_an_ignorable_variant", crossVariant)
-	run.Set("p1_distinct_request_classes_hit", distinctClasses)
-	run.Set("p1_distinct_cache_keys", distinctKeys)
+	run.Set(pfx+"grid_requests", int64(len(g.members)))
+	run.Set(pfx+"ordered_pairs_decided", int64(len(g.members))*int64(len(g.members)))
+	run.Set(pfx+"hits_verified", hits)
+	run.Set(pfx+"misses", misses)
+	run.Set(pfx+"hits_served_from_an_ignorable_variant", crossVariant)
+	run.Set(pfx+"distinct_request_classes_hit", distinctClasses)
+	run.Set(pfx+"distinct_cache_keys", distinctKeys)
 	var radix []string
 	for i := range dims {
 		radix = append(radix, fmt.Sprintf("%s:%d", dims[i].name, g.radix[i]))
@@ -472,7 +470,7 @@ func phase1(run *ev.Run, h *harness, tier string, workers int, deadline time.Tim
 	if tier == "quick" {
 		p1grid = fmt.Sprintf("all requests with at most %d fields different from the base request, out of the product of ", quickWeight) + strings.Join(radix, " ")
 	}
-	run.Set("p1_grid", p1grid)
+	run.Set(pfx+"grid", p1grid)
 	if done {
 		run.Sample(map[string]interface{}{"phase": 1, "request": describeDigits(g.digits(int(g.members[len(g.members)/3]))), "note": "stored with its own reply, then looked up; a hit must carry a reply stored for an equivalent request"})
 		if hits == 0 || crossVariant == 0 {
@@ -819,6 +817,13 @@ func phase2(run *ev.Run, h *harness, tier string, workers int, deadline time.Tim
 
 // ---------------------------------------------------------------------------------------------------------------
 
+func max64(a, b int64) int64 {
+	if a > b {
+		return a
+	}
+	return b
+}
+
 func Run(run *ev.Run) {
 	utils.SetGlobalLoggingLevel("error")
 	tier := ev.Tier()
@@ -834,24 +839,24 @@ func Run(run *ev.Run) {
 	deadline := t0.Add(budget)
 	h := newHarness() // never closed: ristretto's Close() clears ~1GB of sketches; the process ends right after the check
 
-	ok1, ok2 := true, true
-	if os.Getenv("C36_DEV_SKIP") != "1" {
-		ok1 = phase1(run, h, tier, workers, deadline)
+	// phase 1 may use at most 40% of the budget so that phase 2 always runs; the thorough tier first decides the
+	// quick sub-grid (so that a complete pass exists even when the full product does not finish in time)
+	ok1 := phase1(run, h, "quick", "p1_", workers, t0.Add(budget*2/5))
+	if tier == "thorough" {
+		ok1 = phase1(run, h, tier, "p1full_", workers, t0.Add(budget*2/5)) && ok1
 	}
 	t1 := time.Since(t0)
-	if os.Getenv("C36_DEV_SKIP") != "2" {
-		ok2 = phase2(run, h, tier, workers, deadline)
-	}
+	ok2 := phase2(run, h, tier, workers, deadline)
 	run.Set("wall_phase1_s", t1.Seconds())
 	run.Set("wall_phase2_s", (time.Since(t0) - t1).Seconds())
 
-	evals := run.Get("p1_grid_requests") + run.Get("p2_sequences")
+	evals := run.Get("p1_grid_requests") + run.Get("p1full_grid_requests") + run.Get("p2_sequences")
 	run.Set("evaluations", evals)
-	run.Set("distinct_nontrivial", run.Get("p1_distinct_request_classes_hit")+run.Get("p2_sequences_nontrivial"))
-	run.Set("rule", "phase 1: every request of the cartesian grid p1_grid (x chain id) is stored with its own reply and then looked up through the real SetRelay/GetRelay with keys from the real HashCacheRequest; a request class (request modulo id/salt/seen block/request,task,tx id) is non-trivial when a lookup of it hit and the hit was checked against the stored reply and against the class of the request it was stored for. phase 2: every Set/Get sequence of the families in p2_parts (alphabets in the samples), each in its own key namespace; a sequence is non-trivial when at least one Get hit (reply compared byte-wise with the stored reply, block-hash rule checked) or missed while entries for the key existed.")
+	run.Set("distinct_nontrivial", max64(run.Get("p1_distinct_request_classes_hit"), run.Get("p1full_distinct_request_classes_hit"))+run.Get("p2_sequences_nontrivial"))
+	run.Set("rule", "phase 1: every request of the grid p1_grid (thorough: also p1full_grid) is stored with its own reply and then looked up through the real SetRelay/GetRelay with keys from the real HashCacheRequest; a request class (request modulo id/salt/seen block/request,task,tx id) is non-trivial when a lookup of it hit and the hit was checked against the stored reply and against the class of the request it was stored for. phase 2: every Set/Get sequence of the families in p2_parts (alphabets in the samples), each in its own key namespace; a sequence is non-trivial when at least one Get hit (reply compared byte-wise with the stored reply, block-hash rule checked) or missed while entries for the key existed.")
 	run.Set("exhaustive", ok1 && ok2)
-	run.Set("bound", fmt.Sprintf("phase 1: grid of %d requests (all ordered pairs); phase 2: %d histories (see p2_parts); requested blocks >= 0 only",
-		run.Get("p1_grid_requests"), run.Get("p2_sequences_enumerated")))
+	run.Set("bound", fmt.Sprintf("phase 1: grid of %d requests (all ordered pairs; see p1_grid / p1full_grid); phase 2: %d histories (see p2_parts); requested blocks >= 0 only",
+		max64(run.Get("p1_grid_requests"), run.Get("p1full_grid_requests")), run.Get("p2_sequences_enumerated")))
 	run.Assume("symbolic requested blocks (latest/pending/safe/finalized/earliest < 0) are out of scope: their resolution uses a latest-block entry with a hard-coded 500ms wall-clock expiry")
 	run.Assume("all TTLs are 24h and total stored cost stays far below MaxCost (2GiB), so no entry expires or is evicted during the run; ristretto Wait() after every SetRelay")
 	run.Assume("handlers are called in-process after a protobuf marshal/unmarshal round trip of the request message (gRPC transport itself not exercised)")
